@@ -55,6 +55,12 @@ type Event struct {
 	Key      string `json:"key"`
 	Occ      int    `json:"occ"`
 	Decision string `json:"decision"`
+	// Len is the number of body bytes offered at a chunk event.
+	Len int `json:"len,omitempty"`
+	// Bounds lists the absolute body offsets at which a gob message starts
+	// within this chunk (Worker.Read bodies only): every batch boundary of the
+	// row stream is among them.
+	Bounds []int64 `json:"bounds,omitempty"`
 }
 
 func (e Event) String() string {
@@ -408,24 +414,28 @@ func (s *System) apply(f *Fault, callee string, acts map[string]*Fault) {
 func isSupervisor(method string) bool { return strings.HasPrefix(method, "Supervisor.") }
 
 type respWriter struct {
-	h        http.Header
-	pw       *io.PipeWriter
-	once     sync.Once
-	relOnce  sync.Once
-	ready    chan struct{}
-	resp     *http.Response
-	sys      *System
-	method   string
-	callee   string
-	key      string
-	off      int64
-	code     int
-	buf      bytes.Buffer
-	wrote    bool
-	stream   bool
-	cut      *Fault
-	flip     *Fault
-	dead     bool
+	h            http.Header
+	pw           *io.PipeWriter
+	once         sync.Once
+	relOnce      sync.Once
+	ready        chan struct{}
+	resp         *http.Response
+	sys          *System
+	method       string
+	callee       string
+	key          string
+	off          int64
+	code         int
+	buf          bytes.Buffer
+	wrote        bool
+	stream       bool
+	cut          *Fault
+	flip         *Fault
+	killAfterCut bool
+	// gob message framing of the body, for Bounds.
+	msgLeft int64  // bytes of the current message still to come
+	lenBuf  []byte // partial length prefix
+	dead         bool
 }
 
 func (w *respWriter) Header() http.Header { return w.h }
@@ -469,6 +479,12 @@ func (w *respWriter) Write(p []byte) (int, error) {
 		if f := acts["cut"]; f != nil {
 			w.cut = f
 		}
+		if f := acts["cutkill"]; f != nil {
+			// Deliver Arg bytes of the body, then the machine dies: the reader's
+			// resumed reads fail too (a machine lost in the middle of a shuffle read).
+			w.cut = f
+			w.killAfterCut = true
+		}
 		if f := acts["flip"]; f != nil {
 			w.flip = f
 		}
@@ -488,6 +504,9 @@ func (w *respWriter) Write(p []byte) (int, error) {
 				w.sys.mu.Unlock()
 				w.sys.logEvent(Event{Point: "chunk", Method: w.method, Callee: w.callee, Key: w.key, Decision: fmt.Sprintf("cut(%d)", w.off+k)})
 				w.pw.CloseWithError(fmt.Errorf("read tcp %s: connection reset by peer", w.callee))
+				if w.killAfterCut {
+					w.sys.Kill(w.callee)
+				}
 				return int(k), io.ErrClosedPipe
 			}
 		}
@@ -505,7 +524,7 @@ func (w *respWriter) Write(p []byte) (int, error) {
 			}
 		}
 		if !isSupervisor(w.method) || w.sys.cfg.LogSupervisor {
-			w.sys.logEvent(Event{Point: "chunk", Method: w.method, Callee: w.callee, Key: fmt.Sprintf("%s+%d", w.key, w.off), Decision: dec})
+			w.sys.logEvent(Event{Point: "chunk", Method: w.method, Callee: w.callee, Key: fmt.Sprintf("%s+%d", w.key, w.off), Decision: dec, Len: len(p), Bounds: w.bounds(p)})
 		}
 	}
 	n, err := w.pw.Write(p)
@@ -513,6 +532,48 @@ func (w *respWriter) Write(p []byte) (int, error) {
 	return n, err
 }
 func (w *respWriter) Flush() {}
+
+// bounds advances the gob framing state over p (which starts at body offset
+// w.off) and returns the offsets at which messages start.
+func (w *respWriter) bounds(p []byte) []int64 {
+	if w.method != "Worker.Read" {
+		return nil
+	}
+	var out []int64
+	for i := 0; i < len(p); {
+		if w.msgLeft > 0 {
+			k := int64(len(p) - i)
+			if k > w.msgLeft {
+				k = w.msgLeft
+			}
+			w.msgLeft -= k
+			i += int(k)
+			continue
+		}
+		if len(w.lenBuf) == 0 {
+			out = append(out, w.off+int64(i))
+		}
+		w.lenBuf = append(w.lenBuf, p[i])
+		i++
+		b0 := w.lenBuf[0]
+		if b0 < 128 {
+			w.msgLeft, w.lenBuf = int64(b0), w.lenBuf[:0]
+			continue
+		}
+		n := int(-int8(b0))
+		if n < 1 || n > 8 {
+			return out // not gob framing; give up quietly
+		}
+		if len(w.lenBuf) == 1+n {
+			var v int64
+			for _, b := range w.lenBuf[1:] {
+				v = v<<8 | int64(b)
+			}
+			w.msgLeft, w.lenBuf = v, w.lenBuf[:0]
+		}
+	}
+	return out
+}
 
 // Mirror types for decoding request keys (gob matches fields by name).
 type taskName struct {
